@@ -86,6 +86,19 @@ CHECKS["C18"] = {
     "parts": [A("sched", "./checks/c18", "TestC18Sched", overlay=True, gomaxprocs=1, budget={"quick": 120, "thorough": 2400})],
 }
 
+CHECKS["C10"] = {
+    "level": "exploration",
+    "engine": "enum",
+    "technique": "bounded-exhaustive enumeration of frame sequences and of ALL segmentations of the byte stream (every cut, every pair of cuts, all 2^(n-1) splits for short streams) against an independent reference framer",
+    "rule": "Engine C: real proto.STUNConn over a scripted net.Conn (one segment per Read, would-block sentinel when drained); frame alphabet: STUN bodies 0,4,8,12,65512,65516,65532; ChannelData payloads "
+            "0,1,2,3,4,5,7,8,65531..65535 on numbers 0x4000,0x4ABC,0x7FFF; ChannelData payloads beginning with the magic cookie; five invalid 24-byte tails; every sequence of <=2 (thorough <=3) small frames, "
+            "every small frame + invalid tail, every large frame alone and paired; segmentations: whole, byte-at-a-time, every single cut, every pair of cuts, and ALL 2^(n-1) segmentations for n<=16 (20 for single frames; "
+            "thorough 20/24); read buffers 1600 and 65536; oracle wire.FrameLen: after each delivered segment exactly the frames completed so far have been returned, byte-identical, in order, one per call, n>=1, "
+            "an invalid start yields an error, and a cap on results detects zero-length loops. TCPAllocation.BindConnection on a scripted conn: 6 replies x 3 trailers x whole/byte-at-a-time/every single and double cut "
+            "(thorough triple): verdict independent of segmentation and trailing application bytes left unread. A class is (frame reference classes x segmentation kind x read buffer) or (reply x trailer x segmentation kind).",
+    "parts": [A("framer", "./checks/c10", "TestC10Framer", budget={"quick": 60, "thorough": 900}),
+              A("bindreply", "./checks/c10", "TestC10BindReply", budget={"quick": 30, "thorough": 60})],
+}
 CHECKS["C11"] = {
     "level": "exploration",
     "engine": "enum",
@@ -148,10 +161,22 @@ CHECKS["C03"] = {
               A("nonce", "./checks/c03", "TestC03Nonce", budget={"quick": 60, "thorough": 600})],
 }
 
+CHECKS["C05"] = {
+    "level": "exploration",
+    "engine": "enum",
+    "technique": "bounded-exhaustive enumeration of payload lengths x contents x paths x transports x MTU settings through the real server, with an exactly-once byte-identity oracle",
+    "rule": "Engine C over the Engine-A harness: payload length (quick: 0..40, 560..610, 1490..1710, 8960..9010, 65480..65507; thorough: EVERY length 0..65507) x path in {Send indication -> peer, ChannelData -> peer, "
+            "peer -> Data indication, peer -> ChannelData} x client transport in {UDP, stream} x content in {zeros, 0xFF, counter, magic-cookie-prefixed, ChannelData-header-prefixed, STUN-header-prefixed} x "
+            "InboundMTU in {1600 default, 600, 9000}, back-to-back pairs for lengths <= 5, on the real turn.Server over simnet (UDP read buffers truncate like a kernel does); oracle per datagram: exactly one delivery whose "
+            "payload is byte-identical, whose peer attribution (XOR-PEER-ADDRESS / channel number) is the true source and whose source toward the peer is the relayed address, or no delivery at all; never a second copy, "
+            "never different bytes, nothing at any other endpoint. A class is (transport, MTU, content, path, length class) -> relayed | dropped.",
+    "parts": [A("relay", "./checks/c05", "TestC05", budget={"quick": 60, "thorough": 1500})],
+}
+
 ENGINES = [
     {"name": "sched", "path": "/verif/sched + /verif/shim + /verif/instr", "serves_properties": ["C18"],
      "kind_free_text": "Engine B: controlled scheduler over sources instrumented at check time (go build -overlay): stateless DFS over all schedules with at most k preemptions, prefix replay, work stealing between shard processes"},
-    {"name": "enum", "path": "/verif/checks/c10 c11 c17 c20", "serves_properties": ["C11", "C17", "C20"],
+    {"name": "enum", "path": "/verif/checks/c10 c11 c17 c20", "serves_properties": ["C03", "C05", "C10", "C11", "C17", "C20"],
      "kind_free_text": "Engine C: bounded-exhaustive enumeration of inputs / configurations / segmentations of sequential functions against an independent RFC reference"},
     {"name": "vtx", "path": "/verif/vtx", "serves_properties": ["C01", "C02", "C04", "C06", "C07", "C08", "C19"],
      "kind_free_text": "Engine A: explicit-state search over event histories of the real turn.Server/turn.Client in virtual time (testing/synctest) over an in-memory network, reference model + probe sweep after every event"},
